@@ -13,6 +13,7 @@
 -/
 import EasyMl.Model.Tensor
 import EasyMl.Model.Transform
+import EasyMl.Model.TensorChecked
 import EasyMl.Spec.Tensor
 import Driver.Parse
 
@@ -68,7 +69,10 @@ def step (s : State) (toks : List String) : State × String :=
         if kind = "from" then "panic(explicit)" else s!"err valid={showBool v}"
       ({ tensor := t, access := none },
         both (if decide (Spec.Accepts shape n) then "ok" else errS (specValidShape shape))
-             (if t.isSome then "ok" else errS (shapeIsValid shape)))
+             -- the validation as coded (checked product, `usize::MAX` bound)
+             (if (validateDimensionsChecked usizeMax shape n).isNone && t.isSome then "ok"
+              else if (validateDimensionsChecked usizeMax shape n).isNone || t.isSome then "CHECKED-VS-UNBOUNDED"
+              else errS (shapeIsValid shape)))
     | _, _ => (s, "bad-op")
   | "dimerr" :: providedS :: validS :: _ =>
     -- `InvalidDimensionsError<D, P>`: a plain record of two name lists
